@@ -1903,3 +1903,76 @@ def check_no_unsigned_underflow(ctx, rule, q):
         ctx.bad(rule, site, 'unsigned subtraction that can underflow (panics with overflow checks on, wraps to a huge value without): %s' % '; '.join(bad)[:240], b.span)
     else:
         ctx.ok(rule, site, 'no unguarded unsigned `-` (%d guarded, the others saturating / checked calls)' % n, b.span)
+
+
+# ---------------------------------------------------------------------------------------------------------------- exported macros
+MACRO_ARMS = {
+    # fixture function: (macro arm as written by a user, sign of the matrix entries, sign of the bias entries, what the arm denotes)
+    'aff_matrix_plus_vector': ('aff!([[..], ..] + [..])', +1, +1, 'f(x) = M x + c'),
+    'aff_row_plus_scalar': ('aff!([..] + c)', +1, +1, 'f(x) = m x + c'),
+    'poly_less': ('poly!([[..], ..] < [..])', +1, +1, '{x | M x <= b}'),
+    'poly_plus_less_zero': ('poly!([[..], ..] + [..] < 0)', +1, -1, '{x | M x + c <= 0} = {x | M x <= -c}'),
+    'poly_greater': ('poly!([[..], ..] > [..])', -1, -1, '{x | M x >= b} = {x | -M x <= -b}'),
+    'poly_plus_greater_zero': ('poly!([[..], ..] + [..] > 0)', -1, +1, '{x | M x + c >= 0} = {x | -M x <= c}'),
+}
+
+
+def check_macro_arms(ctx, rule, names):
+    """What every arm of the exported macros expands to, read off the MIR of a fixture crate that expands each arm once with parameters as
+    entries (an exported `macro_rules!` arm no library code uses leaves no trace in the library's own MIR): the matrix handed to from_mats
+    holds the entries in row-major order, the bias the vector's entries in order, each with the sign the arm's relation needs."""
+    from ..mir import Facts, strip_sites as s_
+    from .. import engine
+    try:
+        FX = Facts.load(engine.ensure_fixture_facts())
+    except engine.BuildFailed as e:
+        for n in names:
+            ctx.undecided(rule, 'macro:' + n, 'the macro fixture no longer compiles against the tree (an arm changed its syntax?): %s' % str(e).strip().splitlines()[-1][:160])
+        return
+    for n in names:
+        arm, sm, sb, what = MACRO_ARMS[n]
+        site = 'macro:' + n
+        b = FX.q(n)
+        if b is None:
+            ctx.lost(rule, 'fixture function ' + n)
+            continue
+        R = Resolver(b)
+        params = [('param', p) for p in b.arg_names()]
+        mats, vecs = [], []
+        for bb, j, st in b.stmts():
+            rv = st.get('rv') or {}
+            if st['k'] == 'assign' and rv.get('k') == 'agg' and rv['agg']['k'] == 'array' and st['place']['proj']:
+                e = s_(R.rvalue(rv, bb, j))
+                (mats if e[2] and e[2][0][0] == 'agg' else vecs).append(e)
+        rets = [x for _, x in R.return_expr()]
+        if len(mats) != 1 or len(vecs) != 1 or len(rets) != 1 or not is_call(rets[0], 'AffFuncBase::from_mats'):
+            ctx.undecided(rule, site, 'expansion of %s is not from_mats(matrix literal, vector literal)' % arm, b.span)
+            continue
+
+        def entry(e):
+            """-> (sign, param) of `x as f64` / `-x as f64`"""
+            sign = 1
+            for _ in range(6):
+                if e[0] == 'cast':
+                    e = e[1]
+                elif e[0] == 'un' and e[1] == 'Neg':
+                    sign, e = -sign, e[2]
+                elif is_call(e, 'Neg::neg') and len(e[2]) == 1:
+                    sign, e = -sign, e[2][0]
+                else:
+                    break
+            return sign, e
+        m_entries = [entry(x) for row in mats[0][2] for x in row[2]]
+        v_entries = [entry(x) for x in vecs[0][2]]
+        nm = len(m_entries)
+        problems = []
+        if [p for _, p in m_entries] != params[:nm] or [p for _, p in v_entries] != params[nm:]:
+            problems.append('the entries do not appear in the order they were written (row by row, then the vector)')
+        if any(sg != sm for sg, _ in m_entries):
+            problems.append('matrix entries carry sign %s, but %s needs %s' % (sorted({sg for sg, _ in m_entries}), what, '+' if sm > 0 else '-'))
+        if any(sg != sb for sg, _ in v_entries):
+            problems.append('vector entries carry sign %s, but %s needs %s' % (sorted({sg for sg, _ in v_entries}), what, '+' if sb > 0 else '-'))
+        if problems:
+            ctx.bad(rule, site, '%s: %s' % (arm, '; '.join(problems)), b.span)
+        else:
+            ctx.ok(rule, site, '%s expands to from_mats(%sM, %sv): %s' % (arm, '' if sm > 0 else '-', '' if sb > 0 else '-', what), b.span)
